@@ -68,17 +68,21 @@ def getString (sec : Option SecBuf) (index : BitVec 32) : M (Option Bytes) :=
       | some str => pure (some str)
       | none => if avail.length < remaining.toNat then throw (.oobRead "get_string/memchr") else pure none
 
-/-- `string_section_accessor::add_string(const char*)` on a non-null section, `str` without NUL -/
+/-- `add_string` after the seeding step: `current_position = pos`, append `str` + NUL -/
+def addStringAt (s : SecBuf) (pos : BitVec 32) (str : Bytes) : M (SecBuf × BitVec 32) :=
+  let strLen := BitVec.ofNat 64 str.length
+  if str_add_too_long strLen then pure (s, 0) else
+  let appendSize := str_add_append_size strLen
+  if str_add_overflow appendSize pos then pure (s, 0) else
+  (rdRange "add_string/str" (some (str ++ [0])) 0 appendSize.toNat) >>= fun src =>
+  (s.appendData src) >>= fun s2 => pure (s2, pos)
+
+/-- `string_section_accessor::add_string(const char*)` on a non-null section, `str` without NUL:
+    an empty section first receives the leading NUL -/
 def addString (s : SecBuf) (str : Bytes) : M (SecBuf × BitVec 32) :=
   let pos := str_add_pos s.size
-  (if str_add_seed_cond pos then (s.appendData [0]) >>= fun s' => pure (s', pos + 1) else pure (s, pos))
-    >>= fun (s1, pos1) =>
-  let strLen := BitVec.ofNat 64 str.length
-  if str_add_too_long strLen then pure (s1, 0) else
-  let appendSize := str_add_append_size strLen
-  if str_add_overflow appendSize pos1 then pure (s1, 0) else
-  (rdRange "add_string/str" (some (str ++ [0])) 0 appendSize.toNat) >>= fun src =>
-  (s1.appendData src) >>= fun s2 => pure (s2, pos1)
+  if str_add_seed_cond pos then (s.appendData [0]) >>= fun s' => addStringAt s' (pos + 1) str
+  else addStringAt s pos str
 
 /-! ### records -/
 
